@@ -759,13 +759,24 @@ pub fn grid(op: &str, limit: usize) -> (usize, Vec<(Args, Outcome)>) {
             for d in crate::ops_more::BUILD_DOCS {
                 try_one(mk(&[("doc", d)]), &mut n, &mut bad);
             }
-            // nesting, attribute count and content-model groups a few hundred deep / wide
-            for k in [50usize, 300] {
+            // hostile shapes (C03): element nesting, nested content-model groups, wide documents
+            for k in [50usize, 300, 5000] {
                 let deep = format!("{}{}", "<a>".repeat(k), "</a>".repeat(k));
                 try_one(mk(&[("doc", deep.as_str())]), &mut n, &mut bad);
-                let groups = format!("<!DOCTYPE r [<!ELEMENT r {}a{}>]><r/>", "(".repeat(k.min(12)), ")".repeat(k.min(12)));
-                try_one(mk(&[("doc", groups.as_str())]), &mut n, &mut bad);
             }
+            for k in [4usize, 12, 26] {
+                let groups = format!("<!DOCTYPE r [<!ELEMENT r {}a{}>]><r/>", "(".repeat(k), ")".repeat(k));
+                try_one(mk(&[("doc", groups.as_str())]), &mut n, &mut bad);
+                let choices = format!("<!DOCTYPE r [<!ELEMENT r {}a{}>]><r/>", "(".repeat(k), "|b)".repeat(k));
+                try_one(mk(&[("doc", choices.as_str())]), &mut n, &mut bad);
+                let seqs = format!("<!DOCTYPE r [<!ELEMENT r {}a{}>]><r/>", "(".repeat(k), ",b)*".repeat(k));
+                try_one(mk(&[("doc", seqs.as_str())]), &mut n, &mut bad);
+            }
+            let wide = format!("<r>{}</r>", "<a x=\"1\">t</a><!--c-->".repeat(3000));
+            try_one(mk(&[("doc", wide.as_str())]), &mut n, &mut bad);
+            let attrs: String = (0..2000).map(|i| format!(" a{}=\"v\"", i)).collect();
+            let many_attrs = format!("<r{}/>", attrs);
+            try_one(mk(&[("doc", many_attrs.as_str())]), &mut n, &mut bad);
         }
         ["dom", "order_keys"] => {
             for d in crate::ops_more::ORDER_DOCS {
